@@ -126,6 +126,45 @@ def total_oracle(text, r, ntok):
     return None
 
 
+SCALING_UNITS = [") ", "x ", "class A { int x = ; } ", "def d : B<1> { let a = [1, 2]; }\n", "#ifdef X\nq\n#else\n#endif\n",
+                 "/* c */ // d\n", "\"s\" ", "@ ", "defvar v = !add(1, 2); ", "}\n"]
+
+
+def scaling_check(ctx, bindir):
+    """parser work bounded by a constant multiple of the number of tokens, on the part of the work that the tree
+    does not show (e.g. a scan of all earlier errors per error): wall time of syntax::parse per repeated unit, for
+    an input of n1 units and one of n2 = 16 * n1 (or more) units; minimum over repeated runs; a growth of the
+    per-unit time by more than 6x is confirmed with 5 more runs before it counts."""
+    exe = os.path.join(bindir, "parsedump")
+    n1, n2 = (4000, 64000) if ctx.quick else (4000, 256000)
+
+    def us(text, reps):
+        best = None
+        for _ in range(reps):
+            try:
+                out, _err = synlib.run_json(exe, ["--stats", "--timeout-ms", "60000"], [text], timeout=200)
+            except Exception:
+                out = None
+            if not out or "parse_us" not in out[0]:
+                return None
+            best = out[0]["parse_us"] if best is None else min(best, out[0]["parse_us"])
+        return max(best, 1)
+    rows, bad = [], []
+    for unit in SCALING_UNITS:
+        t1, t2 = us(unit * n1, 3), us(unit * n2, 2)
+        if t1 is None or t2 is None:
+            continue                      # a crash / time-out on these inputs is reported by the main oracle
+        ratio = (t2 / n2) / (t1 / n1)
+        if ratio > 6 and t2 > 50000:
+            t1b, t2b = us(unit * n1, 5), us(unit * n2, 5)
+            if t1b and t2b:
+                ratio = min(ratio, (t2b / n2) / (min(t1, t1b) / n1))
+        rows.append({"unit": unit, "n1": n1, "us1": t1, "n2": n2, "us2": t2, "per_unit_growth": round(ratio, 2)})
+        if ratio > 6 and t2 > 50000:
+            bad.append((unit, n2, ratio, t1, t2))
+    return rows, bad
+
+
 def raw_token_counts(exe, texts):
     """number of raw lexer tokens of each text, from the extracted lexer model"""
     lines = synlib.model_lines(exe, "lex", texts, timeout=1500)
@@ -193,6 +232,14 @@ def run(ctx):
         except (IndexError, ValueError):
             pass
 
+    t0 = time.time()
+    scal_rows, scal_bad = scaling_check(ctx, bindir)
+    t_scal = time.time() - t0
+    for unit, n2, ratio, t1, t2 in scal_bad[:2]:
+        oracle_fail.append(("scaling", unit * n2, "parser work is not bounded by a constant multiple of the number of tokens: "
+                            "syntax::parse takes %.1fx more time per token on %d repetitions of %r than on %d (%d us vs %d us)"
+                            % (ratio, n2, unit, n2 // 16 if ctx.quick else 4000, t2, t1)))
+
     def still_fails(cands):
         rs = C01.run_real(bindir, cands, timeout=120, watchdog_ms=5000, budget={"left": 3})
         return [("skipped" not in r) and synlib.errors_oracle(c, r) is not None for c, r in zip(cands, rs)]
@@ -200,6 +247,13 @@ def run(ctx):
     found, reported = False, set()
     for fam, t, why in oracle_fail[:40]:
         hang = "did not return" in why or "died" in why
+        if fam == "scaling":
+            found = True
+            ctx.violation("C02 fails on the real parser: " + why,
+                          {"property": "C02", "input": t, "family": fam, "observed": {"oracle": why, "scaling": scal_rows},
+                           "expected": "time of syntax::parse per token independent of the input size (within 6x for 16x the size)",
+                           "seed": ctx.seed})
+            continue
         can_shrink = len(t) <= 5000 and "work not linear" not in why and len(reported) < 2
         small = C01.shrink(t, still_fails, budget=(5 if hang else 12)) if can_shrink else t
         if small in reported:
@@ -240,6 +294,7 @@ def run(ctx):
         "samples": [t[:120] for _f, t in cases[:: max(1, len(cases) // 12)]][:12],
         "oracle_failures": len(oracle_fail), "correspondence_disagreements": len(corr_fail), "model_panics": len(model_bad),
         "work_counter_mismatches": len(counter_bad),
+        "scaling": scal_rows, "scaling_wall_s": round(t_scal, 1),
         "work_counters_rule": "model nlex == real leaves + 1 and model nstart == real nodes - nodes of kinds %s, on every case" % sorted(special),
         "max_nesting_depth": 256,
         "real_wall_s": round(t_real, 1), "model_wall_s": round(t_model, 1),
